@@ -24,7 +24,7 @@ class Boom(Exception):
 
 
 def alphabet(nports):
-    a = ["start", "stop", "ctx_ok", "ctx_exc", "send_then_stop", "send_yield_stop", "stop_from_callback"]
+    a = ["start", "stop", "ctx_ok", "ctx_exc", "send_then_stop", "send_yield_stop", "stop_from_callback", "start_cancelled_stop"]
     for i in range(nports):
         a += [f"send{i}", f"occupy{i}", f"release{i}"]
     return a
@@ -43,6 +43,9 @@ def legal(history, nports):
                 running = True if (not occ or running) else False
         elif a == "stop":
             running = False
+        elif a == "start_cancelled_stop":
+            if running or occ:
+                return False
         elif a in ("send_then_stop", "send_yield_stop", "stop_from_callback"):
             if not running:
                 return False
@@ -64,8 +67,8 @@ class C17(Prop):
     id = "C17"
     level = "fault_enumeration"
     technique = "action/fault histories on a real bridge; after every action: flag-vs-model, bind probe per port, sentinel delivery; end-of-history no-late-callback check"
-    rule = ("history over {start, stop, async-with (normal body / raising body), send-then-stop-without-yielding, send-yield-once-or-twice-then-stop, "
-            "stop requested from inside the user callback during a burst, send to port i, occupy port i "
+    rule = ("history over {start, stop, async-with (normal body / raising body), send-then-stop-without-yielding, send-yield-1..4-times-then-stop, "
+            "stop requested from inside the user callback during a burst, start cancelled after 0..8 loop cycles then stop, send to port i, occupy port i "
             "with a foreign socket, release port i}; all legal histories of length <= 4 (1 port) and <= 3 (2 ports; <= 4 in thorough) are "
             "enumerated, longer random ones over 1..4 ports sampled; an independent bridge on another port runs throughout and must keep delivering; distinct = (ports, history); non-trivial = histories containing a bind "
             "failure, a restart, a raising body or traffic while stopped")
@@ -75,6 +78,7 @@ class C17(Prop):
     level_note = "start() on a running bridge may either fail (then nothing may be left listening) or be a no-op (then it keeps listening): both are accepted, what follows is judged; 'released' is judged after two event-loop cycles"
     assumptions = ["a port is 'listening' iff a plain bind to it fails and a broadcast to it is delivered",
                    "foreign occupation = a UDP socket bound without SO_REUSEADDR"]
+    warnings_as_errors = False   # unknown models are *reported by a warning*: under an error filter that is an exception by design
     anchors = ["aioswitcher.bridge:SwitcherBridge.start", "aioswitcher.bridge:SwitcherBridge.stop",
                "aioswitcher.bridge:SwitcherBridge.__aenter__", "aioswitcher.bridge:SwitcherBridge.__aexit__"]
     min_evaluations = {"quick": 15_000, "thorough": 150_000}
@@ -249,6 +253,32 @@ class C17(Prop):
                         trace.append(f"stop raised {type(exc).__name__}")
                         vio("stop-raised", f"stop raised {type(exc).__name__}: {exc}")
                     model = False
+                elif a == "start_cancelled_stop":
+                    # the caller gives up on start() (task cancelled / wait_for expired) after k loop cycles, then stops the bridge
+                    k = (n * 5 + len(history) + nports) % 9
+                    task = asyncio.ensure_future(bridge.start())
+                    for _ in range(k):
+                        await asyncio.sleep(0)
+                    task.cancel()
+                    try:
+                        await task
+                        outcome = "start had already finished"
+                    except asyncio.CancelledError:
+                        outcome = "cancelled"
+                    except Exception as exc:
+                        outcome = f"raised {type(exc).__name__}"
+                        vio("start-wrong-exception", f"a start() cancelled after {k} loop cycles raised {type(exc).__name__}: {exc}")
+                    acc.count("starts_cancelled_midway" if outcome == "cancelled" else "starts_finished_before_the_cancel")
+                    try:
+                        await bridge.stop()
+                    except Exception as exc:
+                        vio("stop-raised", f"stop after a cancelled start raised {type(exc).__name__}: {exc}")
+                    trace.append(f"start cancelled after {k} cycles ({outcome}), stop")
+                    model = False
+                    for p in ports:
+                        tag, data = self._tagged()
+                        self.rig.send(p, data)
+                        must_not_deliver[tag] = n
                 elif a == "send_then_stop":
                     for p in ports:
                         tag, data = self._tagged()
@@ -266,7 +296,7 @@ class C17(Prop):
                             tag, data = self._tagged()
                             self.rig.send(p, data)
                             mine.append(tag)
-                    for _ in range(1 + n % 2):
+                    for _ in range(1 + (n + len(history) * 3 + nports) % 4):
                         await asyncio.sleep(0)
                     await bridge.stop()
                     done_before = set(delivered_tags())
